@@ -4,4 +4,9 @@ package mt
 // and block-handler properties are executed twice on the same symbolic inputs under independent symbolic map
 // orders and host-clock readings, in one process; both executions must end in the same stores and balances
 // (verifSelfCompose, harness/rt).
-func VerifC11_SelfT_C12_MT() { verifSelfCompose(VerifC12_MT) }
+func VerifC11_SelfT_C12_MT() {
+	// the history without its optional third and fourth token (the map orders of the export multiply with
+	// every further token: beyond the path budget)
+	verifAssume(verifChoice("moreTokens", 2) == 0)
+	verifSelfCompose(VerifC12_MT)
+}
